@@ -10,12 +10,12 @@ THEOREMS = [_NS + t for t in (
     "int_roundtrip", "int64_roundtrip", "char_roundtrip", "string_roundtrip", "symbol_roundtrip",
     "blob_roundtrip", "midi_roundtrip", "color_roundtrip", "keyword_roundtrip",
     "float_lossless_roundtrip", "double_lossless_roundtrip", "timetag_roundtrip", "timetag_fraction_roundtrip",
-    # tier 2: uncompressed argument lists and whole messages
-    "list_roundtrip", "message_roundtrip",
+    # tier 2: argument lists and whole messages that the printer does not compress
+    "list_roundtrip", "message_roundtrip", "list_roundtrip_uncompressed", "message_roundtrip_uncompressed",
     # the proved part of the full statement (print_scan_roundtrip_statement stays a def)
     "print_scan_roundtrip_partial",
-    # tier 3, partial: with compression off the full statement (scalars and arrays of scalars)
-    "print_scan_roundtrip_nocompress", "array_roundtrip_nocompress",
+    # tier 3, partial: with compression off the full statement (scalars and arrays of scalars), lists and messages
+    "print_scan_roundtrip_nocompress", "message_roundtrip_nocompress", "array_roundtrip_nocompress",
     # tier 3, range compression, for lists that are one run: nxA and a [b] ... z
     "range_roundtrip_const", "range_roundtrip_int",
     # the model is written over the constants/tables extracted from the source on every run
@@ -23,43 +23,75 @@ THEOREMS = [_NS + t for t in (
 HARNESS = {"src": ["pretty.cpp"]}
 RULE = ("each case: print options (lossless, precision 0..9, line length 10..120, compression on/off) and an argument "
         "list of 0..12 top-level values per type or mixed (i h c f d s S b m r t T F N I; finite floats only in lossless "
-        "mode; strings of printable ASCII and C escapes incl. fragments of the format's own syntax; symbols incl. reserved "
-        "words; time tags 'immediately' or with float-representable fraction), constant and arithmetic runs of length "
-        "1..9 (incl. wrap-around and signed-zero runs), arrays of 0..8 elements, runs of equal arrays, nested arrays; "
-        "20 % as whole messages; plus a stream for the libc sub-models (printf %a %#.Nf, sscanf %f %lf %d %i %x, "
-        "localtime/mktime); a case is non-trivial when it has at least two argument tokens; distinct = distinct op line")
+        "mode; strings of 0..600 characters of printable ASCII and C escapes incl. fragments of the format's own syntax; "
+        "symbols of 1..91 characters incl. reserved words; blobs of 0..300 bytes (header widths 8..11); time tags "
+        "'immediately', without fraction, with float-representable fraction in lossless mode, and without lossless mode "
+        "with a fraction that max(precision,1) decimal digits denote exactly, that the scanner reads from such digits, "
+        "or any float-representable one incl. values just below 1 and below 2^-8 — the last kind compared to the "
+        "printed precision: less than one unit of the last printed digit apart), constant and arithmetic runs of length "
+        "1..12 of every type (incl. wrap-around and signed-zero runs), arrays of 0..8 elements, runs of 1..12 equal "
+        "arrays, nested arrays; 20 % as whole messages with an address of '/' + 0..100 characters out of all printable "
+        "non-blank ASCII (33..126); plus a stream for the libc sub-models (printf %a %#.Nf, sscanf %f %lf %d %i %x, "
+        "localtime/mktime). Texts the printer does not write are not generated (C11's statement); `T` ops occur only "
+        "as regression witnesses in corpus/C10.ops. Scanned booleans are observed with their payload val.T. "
+        "A case is non-trivial when it has at least two argument tokens; distinct = distinct op line")
 ASSUMPTIONS = [
-    "the fix patches fixes/C10-01 … C10-15 (and C16-*.patch for rtosc_arg_vals_eq on repeated arrays) are applied to the tree",
-    "proved (Lean, all values, no bound): tier 1 for every scalar value of the property's domain: i h c, f d (finite, "
-    "lossless mode, bit-exact), s S (printable ASCII + C escapes, every line length), b m r T F N I, time tags "
-    "('immediately', without fraction, with float-representable fraction in lossless mode; UTC calendar model); "
-    "tier 2 (lists and whole messages, any line length, precision 0..9) provided the printer does not compress "
-    "(compression off, or no five same-typed values in a row); tier 3 partly: with compression off the full "
-    "statement incl. arrays of scalars (print_scan_roundtrip_nocompress)",
+    "the fix patches fixes/C10-01 … C10-17, fixes/C11-01 … C11-06 (and C16-*.patch for rtosc_arg_vals_eq on repeated "
+    "arrays) are applied to the tree; the model Pretty/{Scan,Check}.lean mirrors the scanner and the checker with them",
+    "proved (Lean, all values, no bound): tier 1 for every scalar value: i h c, f d (finite, lossless mode, bit-exact), "
+    "s S (printable ASCII + C escapes, every line length), b m r T F N I, time tags ('immediately', without fraction, "
+    "with float-representable fraction in lossless mode; UTC calendar model); tier 2 (lists and whole messages, any "
+    "line length, precision 0..9, any address that starts with '/' and contains no white space) for every list the "
+    "printer does not compress: the exact condition `NotCompressed` (rtosc_convert_to_range finds no run at any "
+    "position; list_roundtrip_uncompressed) and the sufficient ones `compression off` / `no five same-TYPED values in "
+    "a row` (list_roundtrip); tier 3 partly: with compression off the full statement incl. arrays of scalars, for "
+    "lists and for whole messages (print_scan_roundtrip_nocompress, message_roundtrip_nocompress)",
+    "`RoundTrips` demands that the scanned and the original list BOTH expand to one and the same value list "
+    "(expandList … = some vs), not merely that two possibly undefined expansions are equal",
+    "domain restrictions of the theorems that the property text does not make: (a) a midnight time tag without fraction "
+    "(printed as a bare date) is proved only as the last value of a text (`MidnightTime`, `ItemNoMidnight`); (b) the "
+    "element-type tag of an array must be the type of its last element, 32 for an empty array (the tag is not written "
+    "in the text; the scanner reconstructs exactly this; rtosc_arg_vals_eq of the implementation compares the tags, so "
+    "the generator only makes such arrays); (c) time tags with a fraction are proved in lossless mode only: without "
+    "lossless mode a fraction is printed with max(precision,1) decimal digits and only comes back exactly when it is "
+    "what the scanner reads from such digits; this is checked by correspondence + oracle, not proved; for every other "
+    "float-representable fraction the oracle demands the printed precision (scanned and original less than one unit "
+    "of the last printed digit + 2^-23 s apart, seconds included), which is weaker than the statement's 'exactly' "
+    "and the most a text without the exact value can give (fixes C10-16, C10-17 were found this way)",
     "range compression is proved for lists that consist of exactly one run: n >= 5 copies of any scalar (nxA), or an int32 "
     "arithmetic run with any step (a ... z / a b ... z) that stays inside int32 incl. the step behind its last element "
     "and is not wider than 2^31-1",
     "NOT proved, covered by correspondence + round-trip oracle only: compressed runs inside longer lists and inside "
-    "arrays, runs of 'h' 'c' values and of arrays, nested arrays, a midnight time tag (printed as a bare date) anywhere "
-    "but at the end of the text",
+    "arrays, arithmetic runs of 'h' 'c' 'T' 'F' values, runs of arrays, nested arrays, a midnight time tag anywhere "
+    "but at the end of the text, time fractions without lossless mode",
+    "the exact printed text is part of the model/implementation comparison (it ties Pretty/Print.lean to the code); a "
+    "difference in the text alone, with the round-trip oracle holding, is reported as such (NOTE line, evidence "
+    "input_distribution.correspondence_diffs_text_only) and yields `no-failing-input-found`, never a failing input",
     "TZ=UTC, LC_ALL=C; separator \" \"; the output buffer is large enough (the bs bookkeeping only feeds asserts compiled out with NDEBUG)",
     "the scanner's string buffer is abstracted: string/blob cells carry their bytes",
 ]
 TRUSTED = [
     "hand-written models RtoscModel/Pretty/{Lex,Val,Print,Scan,Check}.lean of pretty-format.c (printer, range "
     "conversion, checker, scanner), of rtosc_secfracs2float / rtosc_float2secfracs / rtosc_arg_val_from_params "
-    "(rtosc-time.c) and of the integer part of arg-val-math.c",
+    "(rtosc-time.c) and of arg-val-math.c (integers/booleans in Pretty/Val.lean, floats in Pretty/C11Float.lean)",
     "libc modelled, not verified: RtoscModel/Libc/{Ctype,Printf,Float,Scanf,Time}.lean (snprintf %d %x %02x %a %#.Nf, "
     "sscanf subset incl. exact strtof/strtod, localtime/mktime under UTC); validated against glibc by the X-stream",
     "C16's cell type and comparison model RtoscModel/ArgVal/{Val,Cmp}.lean (imported)",
+    "the regular expressions of translate_pretty_tables (a table that cannot be read makes tables_agree fail; it is "
+    "never replaced by a stale file)",
 ]
 LEVEL_TEXT = ("Lean theorems: print→check→scan is the identity, with printed length = returned length and the whole text "
-              "consumed, for every scalar value of the property's domain (tier 1; floats and doubles bit-exact in lossless "
-              "mode via exact %a / strtod models, time tags under the UTC calendar model), for all uncompressed lists and "
-              "whole messages of them at any line length (tier 2), and with compression off for the full domain incl. arrays "
-              "(tier 3, partial); range compression (tier 3 proper) is checked by exact model/implementation correspondence "
-              "and by the round-trip oracle evaluated on the implementation, not proved")
-LEVEL_NOTE = "partial: range compression (tier 3) is correspondence + oracle only"
+              "consumed, for every scalar value (tier 1; floats and doubles bit-exact in lossless mode via exact %a / "
+              "strtod models, time tags under the UTC calendar model, fractions in lossless mode), for every list and "
+              "whole message of them that the printer does not compress, at any line length (tier 2), and with "
+              "compression off for lists and messages incl. arrays of scalars (tier 3, partial; a midnight time tag "
+              "only as the last value, array tag = type of the last element); range compression is proved for "
+              "lists that are exactly one run (nxA of any scalar, int32 arithmetic runs) and otherwise — runs inside "
+              "longer lists or arrays, 'h'/'c'/boolean arithmetic runs, runs of arrays, time fractions without "
+              "lossless mode — checked by exact model/implementation correspondence and by the round-trip oracle "
+              "evaluated on the implementation, not proved")
+LEVEL_NOTE = ("partial: range compression beyond single-run lists, and time fractions without lossless mode, are "
+              "correspondence + oracle only")
 
 
 
@@ -74,25 +106,77 @@ def _cchar(tok):
     return ord(tok)
 
 
-def translate_pretty_tables():
+def _write_generated(text):
+    import os
+    import vlib
+    dst = os.path.join(vlib.LEAN, "RtoscModel", "Generated", "PrettyConst.lean")
+    old = open(dst).read() if os.path.exists(dst) else None
+    if old != text:
+        with open(dst, "w") as f:
+            f.write(text)
+        return "changed"
+    return "unchanged"
+
+
+def _generated_text(ok, note, range_min, defopt, esc, unesc, esc_def, unesc_def, names, words):
+    out = ["/- GENERATED by tools/props/c10.py (translate_pretty_tables) from src/cpp/pretty-format.c — do not edit -/",
+           "namespace Rtosc.Pretty.Generated", "",
+           "/-- true: the tables below were read from the source; false: the translator could not read them and "
+           "`tables_agree` fails (%s) -/" % note,
+           "def translatorOK : Bool := %s" % ("true" if ok else "false"),
+           "def rangeMin : Nat := %d" % range_min,
+           "/-- default_print_options: lossless, precision, line length, compress_ranges (separator %r); for information, "
+           "not part of `tables_agree`: the property quantifies over the options -/" % defopt[2],
+           "def defaultOpt : Bool × Nat × Int × Bool := (%s, %d, %d, %s)" % (defopt[0], defopt[1], defopt[3], defopt[4]),
+           "/-- as_escaped_char, the `case` labels: (character, letter of its escape sequence), common to chars and strings -/",
+           "def escapeTable : List (UInt8 × UInt8) := [%s]" % ", ".join("(%d, %d)" % (_cchar(a), _cchar(b)) for a, b in esc),
+           "/-- as_escaped_char, the `default:` branch: (chr, character, letter) -/",
+           "def escapeDefault : List (Bool × UInt8 × UInt8) := [%s]" % ", ".join(
+               "(%s, %d, %d)" % ("true" if f else "false", _cchar(a), _cchar(b)) for f, a, b in esc_def),
+           "/-- get_escaped_char, the `case` labels: (letter, character) -/",
+           "def unescapeTable : List (UInt8 × UInt8) := [%s]" % ", ".join("(%d, %d)" % (_cchar(a), _cchar(b)) for a, b in unesc),
+           "/-- get_escaped_char, the `default:` branch: (chr, letter, character) -/",
+           "def unescapeDefault : List (Bool × UInt8 × UInt8) := [%s]" % ", ".join(
+               "(%s, %d, %d)" % ("true" if f else "false", _cchar(a), _cchar(b)) for f, a, b in unesc_def),
+           "/-- scanf_fmtstr: the formats in the order they are tried, with the type letter they stand for -/",
+           "def tryOrder : List (String × UInt8) := [%s]" % ", ".join('("%s", %d)' % (k, ord(t)) for k, t in names),
+           "/-- is_reserved_word (a set: the order of words[] does not matter) -/",
+           "def reservedWords : List String := [%s]" % ", ".join('"%s"' % w for w in words),
+           "", "end Rtosc.Pretty.Generated", ""]
+    return "\n".join(out)
+
+
+def _extract_pretty_tables():
     import os
     import re
     import vlib
     src = open(os.path.join(vlib.REPO, "src/cpp/pretty-format.c")).read()
     m = re.search(r"const size_t range_min = (\d+);", src)
+    if not m:
+        raise ValueError("range_min not found")
     range_min = int(m.group(1))
     m = re.search(r"rtosc_print_options\) \{ (true|false), (\d+), \"([^\"]*)\", (\d+), (true|false)\}", src)
-    defopt = (m.group(1), int(m.group(2)), m.group(3), int(m.group(4)), m.group(5))
+    defopt = (m.group(1), int(m.group(2)), m.group(3), int(m.group(4)), m.group(5)) if m else ("true", 0, "?", 0, "true")
 
     def body(name):
         i = src.index(name + "(")
         i = src.index("{", i)
         j = src.index("\n}\n", i)
         return src[i:j]
-    esc = re.findall(r"case '((?:\\.|[^\\']))': return '((?:\\.|[^\\']))';", body("static int as_escaped_char"))
-    unesc = re.findall(r"case '((?:\\.|[^\\']))': return '((?:\\.|[^\\']))';", body("static char get_escaped_char"))
+    cases = r"case '((?:\\.|[^\\']))': return '((?:\\.|[^\\']))';"
+    dflt = r"if\((!?)chr && c == '((?:\\.|[^\\']))'\)\s*return '((?:\\.|[^\\']))';"
+    eb, ub = body("static int as_escaped_char"), body("static char get_escaped_char")
+    esc = re.findall(cases, eb)
+    unesc = re.findall(cases, ub)
     if len(esc) < 8 or len(unesc) < 8:
         raise ValueError("escape tables not found")
+    if "default:" not in eb or "default:" not in ub:
+        raise ValueError("default: branch of the escape functions not found")
+    esc_def = [(neg == "", a, b) for neg, a, b in re.findall(dflt, eb[eb.index("default:"):])]
+    unesc_def = [(neg == "", a, b) for neg, a, b in re.findall(dflt, ub[ub.index("default:"):])]
+    # every `return` of the two functions must have been understood (the final one is the "no escape" value)
+    if eb.count("return") != len(esc) + len(esc_def) + 1 or ub.count("return") != len(unesc) + len(unesc_def) + 1:
+        raise ValueError("a return statement of as_escaped_char/get_escaped_char was not understood")
     fb = body("static const char* scanf_fmtstr")
     tries = re.findall(r"try_fmt\(src, exp, ([^,]+(?:\"[^\"]*\")?[^,]*), _type, '(.)'\)", fb)
     names = []
@@ -104,29 +188,24 @@ def translate_pretty_tables():
             raise ValueError("unknown numeric format " + f)
         names.append((key, t))
     m = re.search(r"words\[\] = \{([^}]*)\}", src)
-    words = re.findall(r'"([A-Za-z]+)"', m.group(1)) if m else []
-    out = ["/- GENERATED by tools/props/c10.py (translate_pretty_tables) from src/cpp/pretty-format.c — do not edit -/",
-           "namespace Rtosc.Pretty.Generated", "",
-           "def rangeMin : Nat := %d" % range_min,
-           "/-- default_print_options: lossless, precision, line length, compress_ranges (separator %r) -/" % defopt[2],
-           "def defaultOpt : Bool × Nat × Int × Bool := (%s, %d, %d, %s)" % (defopt[0], defopt[1], defopt[3], defopt[4]),
-           "/-- as_escaped_char: (character, letter of its escape sequence), common to chars and strings -/",
-           "def escapeTable : List (UInt8 × UInt8) := [%s]" % ", ".join("(%d, %d)" % (_cchar(a), _cchar(b)) for a, b in esc),
-           "/-- get_escaped_char: (letter, character) -/",
-           "def unescapeTable : List (UInt8 × UInt8) := [%s]" % ", ".join("(%d, %d)" % (_cchar(a), _cchar(b)) for a, b in unesc),
-           "/-- scanf_fmtstr: the formats in the order they are tried, with the type letter they stand for -/",
-           "def tryOrder : List (String × UInt8) := [%s]" % ", ".join('("%s", %d)' % (k, ord(t)) for k, t in names),
-           "/-- is_reserved_word -/",
-           "def reservedWords : List String := [%s]" % ", ".join('"%s"' % w for w in words),
-           "", "end Rtosc.Pretty.Generated", ""]
-    text = "\n".join(out)
-    dst = os.path.join(vlib.LEAN, "RtoscModel", "Generated", "PrettyConst.lean")
-    old = open(dst).read() if os.path.exists(dst) else None
-    if old != text:
-        with open(dst, "w") as f:
-            f.write(text)
-        return "PrettyConst.lean regenerated (changed)"
-    return "PrettyConst.lean regenerated (unchanged)"
+    if not m:
+        raise ValueError("is_reserved_word: words[] not found")
+    words = re.findall(r'"([A-Za-z]+)"', m.group(1))
+    return _generated_text(True, "ok", range_min, defopt, esc, unesc, esc_def, unesc_def, names, words)
+
+
+def translate_pretty_tables():
+    """Regenerates Generated/PrettyConst.lean.  If the shape of the source has changed so that the tables cannot be
+    read, NO stale file is kept: a file with `translatorOK := false` is written, `tables_agree` no longer checks and
+    the run reports a broken obligation."""
+    try:
+        text = _extract_pretty_tables()
+        return "PrettyConst.lean regenerated (%s)" % _write_generated(text)
+    except Exception as e:  # noqa: the failure must become a broken obligation, not a silent fallback
+        note = ("%s: %s" % (type(e).__name__, e)).replace("-/", "- /").replace("\n", " ")[:200]
+        text = _generated_text(False, note, 0, ("true", 0, "?", 0, "true"), [], [], [], [], [], [])
+        _write_generated(text)
+        return "translator translate_pretty_tables FAILED (%s): tables_agree is a broken obligation" % note
 
 
 TRANSLATORS = [translate_pretty_tables]
@@ -230,14 +309,14 @@ def g_ident(rng):
     if r < 0.16:
         return rng.choice(KEYWORDS) + g_ident_tail(rng, 1, 3)
     first = rng.choice(b"abcdefghijklmnopqrstuvwxyzABCDEFGHIJKLMNOPQRSTUVWXYZ_")
-    return bytes([first]) + g_ident_tail(rng, 0, 12)
+    return bytes([first]) + g_ident_tail(rng, 0, rng.choice([12, 12, 12, 30, 90]))
 
 
 def g_ident_tail(rng, lo, hi):
     return bytes(rng.choice(b"abcdefghijklmnopqrstuvwxyzABCXYZ_0123456789") for _ in range(rng.randint(lo, hi)))
 
 
-def g_t(rng, lossless):
+def g_t(rng, lossless, prec=0):
     r = rng.random()
     if r < 0.15:
         return 1
@@ -254,14 +333,49 @@ def g_t(rng, lossless):
         frac = (m << sh) & 0xffffffff
         while frac and frac.bit_length() - (frac & -frac).bit_length() + 1 > 24:   # keep float-representable
             frac &= frac - 1
+    elif not lossless and rng.random() < 0.6:
+        # without the exact value in parentheses the fraction is printed with max(prec, 1) decimal digits only
+        r = rng.random()
+        digits = max(prec, 1)
+        if r < 0.45:     # the values that this text denotes exactly: multiples of 2^-j, j <= number of digits
+            j = rng.randint(1, digits)
+            frac = (rng.randint(1, 2 ** j - 1) << (32 - j)) & 0xffffffff
+        elif r < 0.7:    # what the scanner makes of a decimal fraction of that many digits: these round-trip exactly too
+            k = rng.randint(1, 10 ** digits - 1)
+            frac = lossy_scan(k, digits)
+        else:            # any float-representable fraction, edge cases: just below 1, below 2^-8, tiny
+            m = rng.getrandbits(rng.randint(1, 24))
+            sh = rng.choice([rng.randint(0, 31), rng.randint(0, 8), 31 - rng.randint(0, 3)])
+            frac = (m << sh) & 0xffffffff
+            if rng.random() < 0.2:
+                frac = 0xffffffff - rng.getrandbits(rng.randint(0, 20))
+            while frac and frac.bit_length() - (frac & -frac).bit_length() + 1 > 24:
+                frac &= frac - 1
     v = (secs << 32) | frac
     return v if v != 1 else 1
+
+
+def lossy_scan(k, digits):
+    """second fraction (units of 2^-32) the scanner reads from the decimal text .<k with `digits` digits>:
+    sscanf %f (nearest float), then rtosc_float2secfracs (bits below 2^-32 cut off)"""
+    from fractions import Fraction
+    x = Fraction(k, 10 ** digits)
+    f = struct.unpack("<f", struct.pack("<f", float(x)))[0]      # double rounding is harmless here: checked by the oracle
+    fr = Fraction(f)
+    if fr >= 1:
+        return 0
+    return int(fr * 2 ** 32)
 
 
 SIMPLE = "ihcfdsSbmrtTFNI"
 
 
-def g_val(rng, ty, lossless):
+BLOB_LEN = [0, 1, 2, 5, 12, 30]
+BLOB_LEN_BIG = [64, 99, 100, 101, 127, 128, 255, 256, 300]      # header "BLOB [<len> " of 9, 10, 11 characters
+STR_LEN = [3, 10, 40, 150]
+
+
+def g_val(rng, ty, lossless, prec=0):
     if ty == "i":
         return "i%d" % g_i(rng)
     if ty == "h":
@@ -273,17 +387,18 @@ def g_val(rng, ty, lossless):
     if ty == "d":
         return "d%016x" % g_d(rng)
     if ty == "s":
-        return "s:" + hx(g_bytes(rng, 0, rng.choice([3, 10, 40, 150])))
+        return "s:" + hx(g_bytes(rng, 0, rng.choice(STR_LEN) if rng.random() < 0.95 else rng.choice([151, 300, 600])))
     if ty == "S":
         return "S:" + hx(g_ident(rng) if rng.random() < 0.6 else g_bytes(rng, 0, rng.choice([3, 10, 40])))
     if ty == "b":
-        return "b:" + hx(bytes(rng.getrandbits(8) for _ in range(rng.choice([0, 1, 2, 5, 12, 30]))))
+        n = rng.choice(BLOB_LEN) if rng.random() < 0.85 else (rng.choice(BLOB_LEN_BIG) if rng.random() < 0.7 else rng.randint(31, 300))
+        return "b:" + hx(bytes(rng.getrandbits(8) for _ in range(n)))
     if ty == "m":
         return "m%08x" % rng.getrandbits(32)
     if ty == "r":
         return "r%08x" % rng.getrandbits(32)
     if ty == "t":
-        return "t%016x" % g_t(rng, lossless)
+        return "t%016x" % g_t(rng, lossless, prec)
     return ty
 
 
@@ -297,8 +412,8 @@ def wrap(ty, v):
     return (v + 2 ** 63) % 2 ** 64 - 2 ** 63
 
 
-def g_run(rng, lossless, maxlen=9):
-    """constant or arithmetic run, length around the compression threshold (5)"""
+def g_run(rng, lossless, maxlen=12, prec=0):
+    """constant or arithmetic run of every type, length 1..12 around the compression threshold (5)"""
     n = rng.randint(1, maxlen)
     if rng.random() < 0.5:       # arithmetic, types cihTF
         ty = rng.choice("iihcTF")
@@ -326,14 +441,14 @@ def g_run(rng, lossless, maxlen=9):
         z = ["f00000000", "f80000000"] if ty == "f" else ["d0000000000000000", "d8000000000000000"]
         return [rng.choice(z) if rng.random() < 0.3 else z[0] for _ in range(n)]
     ty = rng.choice(types_for(lossless))
-    v = g_val(rng, ty, lossless)
+    v = g_val(rng, ty, lossless, prec)
     return [v] * n
 
 
 def g_array_run(rng, lossless):
     """constant run of one small array (printed `nx[...]` when compressed), now and then one differing"""
     arr = g_array(rng, lossless, 3)
-    n = rng.randint(1, 7)
+    n = rng.randint(1, 12)
     out = []
     for k in range(n):
         out.append(g_array(rng, lossless, 3) if rng.random() < 0.05 else arr)
@@ -368,19 +483,19 @@ def g_run_same_type(rng, tok, lossless, n):
     return [g_val(rng, ty, lossless) for _ in range(rng.randint(0, n))]
 
 
-def g_args(rng, lossless, stats):
+def g_args(rng, lossless, stats, prec=0):
     """argument list: 0..12 top-level values per type and mixed, runs, arrays"""
     shape = rng.random()
     out = []
     if shape < 0.25:                     # one type only
         ty = rng.choice(types_for(lossless))
         n = rng.randint(0, 12)
-        out = [g_val(rng, ty, lossless) for _ in range(n)]
+        out = [g_val(rng, ty, lossless, prec) for _ in range(n)]
         stats["shape_single_type"] += 1
     elif shape < 0.55:                   # mixed simple values
         n = rng.randint(0, 12)
         tys = types_for(lossless)
-        out = [g_val(rng, rng.choice(tys), lossless) for _ in range(n)]
+        out = [g_val(rng, rng.choice(tys), lossless, prec) for _ in range(n)]
         stats["shape_mixed"] += 1
     else:                                # pieces: values, runs, arrays
         k = rng.randint(1, 4)
@@ -389,7 +504,7 @@ def g_args(rng, lossless, stats):
         for _ in range(k):
             r = rng.random()
             if r < 0.45:
-                run = g_run(rng, lossless)
+                run = g_run(rng, lossless, 12, prec)
                 out += run
                 ntop += len(run)
                 stats["runs"] += 1
@@ -406,38 +521,82 @@ def g_args(rng, lossless, stats):
                 stats["arrays"] += 1
                 stats["array_len_hist"][str(len(arr) - 2)] = stats["array_len_hist"].get(str(len(arr) - 2), 0) + 1
             else:
-                out.append(g_val(rng, rng.choice(tys), lossless))
+                out.append(g_val(rng, rng.choice(tys), lossless, prec))
                 ntop += 1
         stats["shape_pieces"] += 1
     return out
 
 
+ADDR_PLAIN = b"abcxyz/_09#"
+ADDR_ANY = bytes(range(33, 127))          # every printable character that is not white space
+
+
+def g_addr(rng):
+    """OSC address of a message: '/' + 0..100 printable non-blank characters"""
+    n = rng.randint(0, 12) if rng.random() < 0.7 else rng.randint(13, 100)
+    r = rng.random()
+    if r < 0.4:
+        return b"/" + bytes(rng.choice(ADDR_PLAIN) for _ in range(n))
+    if r < 0.6:     # path-like with one unusual character
+        body = bytearray(rng.choice(ADDR_PLAIN) for _ in range(max(n, 1)))
+        body[rng.randrange(len(body))] = rng.choice(ADDR_ANY)
+        return b"/" + bytes(body)
+    return b"/" + bytes(rng.choice(ADDR_ANY) for _ in range(n))
+
+
+_STATS = {}       # the stats dict of the current run (the runner dumps it into the evidence file at the end)
+
+
 def generate(rng, tier, stats):
+    global _STATS
+    if not _STATS:          # the first call is the run proper; the runner's search calls generate() again
+        _STATS = stats
     n = 50000 if tier == "quick" else 400000
     for op in libc_stream(rng, 8000 if tier == "quick" else 100000, stats):
         yield op
-    for op in text_stream(rng, 6000 if tier == "quick" else 100000, stats):
-        yield op
+    # no stream of hand-written texts (T / TM ops): what checker and scanner do with documented syntax that the
+    # printer never writes is C11's statement and is checked there; C10 runs them on printed text only
+    # (T ops remain for the regression witnesses in corpus/C10.ops)
     stats.update({"shape_single_type": 0, "shape_mixed": 0, "shape_pieces": 0, "runs": 0, "arrays": 0, "array_runs": 0,
                   "run_len_hist": {}, "array_len_hist": {}, "messages": 0, "lossless": 0, "compress": 0,
-                  "type_hist": {}, "linelength_hist": {}, "precision_hist": {}})
+                  "type_hist": {}, "linelength_hist": {}, "precision_hist": {}, "blob_len_hist": {}, "string_len_hist": {},
+                  "address_len_hist": {}, "address_unusual_chars": 0, "time_fraction_lossy_mode": 0, "list_len_hist": {}})
+
+    def bump(key, val):
+        stats[key][val] = stats[key].get(val, 0) + 1
+
+    def bucket(k):
+        for lim in (0, 1, 5, 12, 30, 63, 99, 127, 255, 300):
+            if k <= lim:
+                return "<=%d" % lim
+        return ">300"
     for _ in range(n):
         lossless = 1 if rng.random() < 0.7 else 0
         prec = rng.randint(0, 9)
         ll = rng.choice([10, 11, 12, 15, 20, 40, 79, 80, 81, 120]) if rng.random() < 0.5 else rng.randint(10, 120)
         comp = 1 if rng.random() < 0.6 else 0
         msg = rng.random() < 0.2
-        args = g_args(rng, lossless, stats)
+        args = g_args(rng, lossless, stats, prec)
         stats["lossless"] += lossless
         stats["compress"] += comp
         stats["messages"] += 1 if msg else 0
-        stats["linelength_hist"][str(ll // 10 * 10)] = stats["linelength_hist"].get(str(ll // 10 * 10), 0) + 1
-        stats["precision_hist"][str(prec)] = stats["precision_hist"].get(str(prec), 0) + 1
+        bump("linelength_hist", str(ll // 10 * 10))
+        bump("precision_hist", str(prec))
+        bump("list_len_hist", bucket(len(args)))
         for a in args:
-            stats["type_hist"][a[0]] = stats["type_hist"].get(a[0], 0) + 1
+            bump("type_hist", a[0])
+            if a[0] == "b":
+                bump("blob_len_hist", bucket(len(a) // 2 - 1 if a != "b:-" else 0))
+            elif a[0] in "sS":
+                bump("string_len_hist", bucket(len(a) // 2 - 1 if a[2:] != "-" else 0))
+            elif a[0] == "t" and not lossless and int(a[1:], 16) & 0xffffffff and int(a[1:], 16) != 1:
+                stats["time_fraction_lossy_mode"] += 1
         addr = "-"
         if msg:
-            addr = hx(b"/" + bytes(rng.choice(b"abcxyz/_09#") for _ in range(rng.randint(0, 12))))
+            ab = g_addr(rng)
+            addr = hx(ab)
+            bump("address_len_hist", bucket(len(ab)))
+            stats["address_unusual_chars"] += 1 if any(c not in ADDR_PLAIN for c in ab) else 0
         yield " ".join(["M" if msg else "A", str(lossless), str(prec), str(ll), str(comp), "0", addr] + args)
 
 
@@ -686,6 +845,8 @@ def parse_cells(toks):
             out.append((c, None if t[2:] == "NULL" else unhx(t[2:])))
         elif c in "TFNI" and len(t) == 1:
             out.append((c, None))
+        elif c in "TF" and t[1:] in ("0", "1"):     # scanned boolean with its payload val.T
+            out.append((c, None))
         elif c == "a":
             ty, ln = t[1:].split(":")
             out.append(("a", (int(ty), int(ln))))
@@ -778,7 +939,31 @@ def expand(cells):
     return out
 
 
-def same_value(a, b):
+class LossyTime:
+    """Without lossless mode a time tag's fraction is printed with max(precision, 1) decimal digits and nothing
+    else.  A fraction that these digits do not denote exactly cannot come back exactly; the statement's "equal
+    exactly" is then read as: equal to the printed precision, i.e. less than one unit of the last printed digit
+    apart (the printer rounds to nearest, and prints .99… instead of carrying into the seconds: fix C10-17),
+    plus the float step."""
+
+    def __init__(self, active, prec):
+        self.active = active
+        self.digits = max(prec, 1)
+        self.used = False
+        self.why = ""
+
+    def close_enough(self, v, w):
+        if not self.active or v == 1 or w == 1:
+            return False
+        tol = (2 ** 32) // (10 ** self.digits) + 2 ** 9
+        if abs(v - w) <= tol:
+            self.used = True
+            return True
+        self.why = " (more than one unit of the %d printed fraction digits apart: %.9f s)" % (self.digits, abs(v - w) / 2 ** 32)
+        return False
+
+
+def same_value(a, b, lossy=None):
     if a[0] == "a" or b[0] == "a":
         if a[0] != b[0]:
             return False
@@ -787,7 +972,9 @@ def same_value(a, b):
         # the element type of an empty array is not visible in the text
         if a[1] != b[1] and not (chr(a[1]) in "TF" and chr(b[1]) in "TF") and len(a[2]) > 0:
             return False
-        return all(same_value(x, y) for x, y in zip(a[2], b[2]))
+        return all(same_value(x, y, lossy) for x, y in zip(a[2], b[2]))
+    if a != b and lossy is not None and a[0] == "t" and b[0] == "t":
+        return lossy.close_enough(a[1], b[1])
     return a == b
 
 
@@ -837,16 +1024,22 @@ def oracle(op, out):
             return "no scan"
         if any(t.startswith("?") for t in r["cells_tok"]):
             return "scanner wrote fewer cells than the checker counted (%d)" % r["count"]
+        for t in r["cells_tok"]:
+            # "compared ... bitwise": an original 'T' carries val.T = 1, an 'F' val.T = 0 (rtosc_arg_val_to_int and
+            # the range arithmetic read the payload, not the type letter)
+            if t[0] in "TF" and len(t) == 2 and t not in ("T1", "F0"):
+                return "scanned boolean '%s' carries val.T = %s, the original %d" % (t[0], t[1], 1 if t[0] == "T" else 0)
         if r["rd"] != len(text):
             return "scanner consumed %d of %d characters" % (r["rd"], len(text))
         orig = expand(op_cells(w[7:]))
         got = expand(parse_cells(r["cells_tok"]))
         if len(orig) != len(got):
             return "scanned %d values, printed %d" % (len(got), len(orig))
+        lossy = LossyTime(w[1] == "0", int(w[2]))
         for k, (a, b) in enumerate(zip(orig, got)):
-            if not same_value(a, b):
-                return "value %d differs: printed %r, scanned %r" % (k, a, b)
-        if r.get("eq") != 1:
+            if not same_value(a, b, lossy):
+                return "value %d differs: printed %r, scanned %r%s" % (k, a, b, lossy.why)
+        if r.get("eq") != 1 and not lossy.used:
             return "rtosc_arg_vals_eq(original, scanned) = %r" % r.get("eq")
         if w[0] == "M" and r.get("addr") != unhx(w[6]):
             return "address differs"
@@ -854,6 +1047,52 @@ def oracle(op, out):
         return "malformed scan result: %s" % e
     except (KeyError, ValueError, IndexError) as e:
         return "unparsable output (%s): %s" % (e, out[:80])
+    return None
+
+
+def _same_but_text(impl_out, model_out):
+    """both lines are complete print/count/scan lines and agree in everything but the printed text (and the two
+    numbers that are its length: the printer's return value and the scanner's byte count)"""
+    try:
+        a, b = parse_out(impl_out), parse_out(model_out)
+    except (ValueError, IndexError):
+        return False
+    if "text" not in a or "text" not in b or a.get("rd") is None or b.get("rd") is None:
+        return False
+    return all(a.get(k) == b.get(k) for k in ("count", "cells_tok", "addr", "eq")) and a["text"] != b["text"]
+
+
+_NOTE_DONE = [False]
+
+
+def _print_text_only_note():
+    n = _STATS.get("correspondence_diffs_text_only", 0)
+    m = _STATS.get("correspondence_diffs_other", 0)
+    if n and not _NOTE_DONE[0]:
+        _NOTE_DONE[0] = True
+        print("NOTE property=C10: %d of %d model/implementation differences are in the PRINTED TEXT ONLY: for these inputs "
+              "the implementation's own text is accepted by its checker, scanned back completely and the values equal the "
+              "originals (round-trip oracle holds, count/scan part of the line identical to the model's). The printer "
+              "lays its text out differently from the model Pretty/Print.lean; that alone does not violate C10 "
+              "(e.g. %s)" % (n, n + m, _STATS.get("correspondence_diffs_text_only_example", "")[:160]))
+
+
+def known(op, impl_out, model_out, defs):
+    """C10 has no open finding: this never attributes anything (always None).  It is the one place where the
+    runner shows implementation and model output together; used to record, for the evidence file and a NOTE line,
+    whether a disagreement concerns the printed text only while the property itself (oracle) holds."""
+    if model_out is None or impl_out == model_out:
+        return None
+    import atexit
+    if "correspondence_diffs_text_only" not in _STATS:
+        _STATS["correspondence_diffs_text_only"] = 0
+        _STATS["correspondence_diffs_other"] = 0
+        atexit.register(_print_text_only_note)
+    if _same_but_text(impl_out, model_out) and oracle(op, impl_out) is None:
+        _STATS["correspondence_diffs_text_only"] += 1
+        _STATS.setdefault("correspondence_diffs_text_only_example", op)
+    else:
+        _STATS["correspondence_diffs_other"] += 1
     return None
 
 
